@@ -6,6 +6,7 @@ use std::panic::{catch_unwind, AssertUnwindSafe};
 mod autdump;
 mod e_automata;
 mod e_charset;
+mod e_literal;
 mod e_looprange;
 mod e_partition;
 mod e_regex;
@@ -30,6 +31,7 @@ fn main() {
         let r = catch_unwind(AssertUnwindSafe(|| match engine {
             "charset" => e_charset::run(&toks),
             "regex" => e_regex::run(&toks),
+            "literal" => e_literal::run(&toks),
             "partition" => e_partition::run(&toks),
             "automata" => e_automata::run(&toks),
             "looprange" => e_looprange::run(&toks),
